@@ -21,6 +21,15 @@ type FuncInfo struct {
 	Obj  *types.Func // nil for literals
 	Encl *FuncInfo   // enclosing function for literals
 	g    *Graph
+	gi   *Graph // graph with helpers inlined
+	// inlined: helper bodies and synthesized binding statements spliced into gi
+	inlined []ast.Node
+	// replaced: call statements whose effect is given by the spliced body
+	replaced map[ast.Node]bool
+	// binds: the synthesized parameter bindings of spliced helpers
+	binds []*ast.AssignStmt
+	// retAssign: the synthesized assignments of spliced helpers' returns
+	retAssign map[ast.Node]bool
 }
 
 func (f *FuncInfo) Body() *ast.BlockStmt {
@@ -186,6 +195,7 @@ func (w *World) MustObj(q string) (types.Object, error) {
 
 // Func finds a declared function or method with a body in the loaded roots.
 func (w *World) Func(q string) *FuncInfo {
+	mentioned[q] = true
 	if fi, ok := w.funcs[q]; ok {
 		return fi
 	}
@@ -220,9 +230,20 @@ func (w *World) Func(q string) *FuncInfo {
 					hit = c
 				}
 			}
-			if hit != nil {
-				hit.Name = q
+			if hit == nil {
+				// the literal was turned into a declared helper of the package: the
+				// unique function base calls directly whose own body calls the callee
+				for _, h := range directHelpers(base, ns) {
+					if hit != nil {
+						hit = nil
+						break
+					}
+					hit = h
+				}
+				w.funcs[q] = hit
+				return hit
 			}
+			hit.Name = q
 			w.funcs[q] = hit
 			return hit
 		}
@@ -381,12 +402,30 @@ func Names(ns ...string) NameSet {
 	m := NameSet{}
 	for _, n := range ns {
 		m[n] = true
+		mentioned[n] = true
 	}
 	return m
 }
 
 func (s NameSet) Has(fn *types.Func) bool {
 	return fn != nil && s[ShortName(fn)]
+}
+
+// HasCall is Has(Callee(call)) extended to calls of function values: a call
+// whose function expression has a named func type pkg.T matches the name
+// "pkg.T" (e.g. an option applied as opt(x)).
+func (s NameSet) HasCall(info *types.Info, call *ast.CallExpr) bool {
+	if fn := Callee(info, call); fn != nil {
+		return s.Has(fn)
+	}
+	if t := info.TypeOf(call.Fun); t != nil {
+		if n, ok := t.(*types.Named); ok {
+			if _, isSig := n.Underlying().(*types.Signature); isSig && n.Obj().Pkg() != nil {
+				return s[shortenPath(n.Obj().Pkg().Path())+"."+n.Obj().Name()]
+			}
+		}
+	}
+	return false
 }
 
 func (s NameSet) List() []string {
